@@ -46,8 +46,10 @@ ASSUME = [
 
 
 def consts(nc: int, total: int, kinds: str, ab: str, pre: str, maxc: int, qenv: bool) -> dict[str, str]:
+    # the shield of the cancelled scope O_c does not change the model's behaviour: the exhaustive
+    # verification runs fix it, the scenario-generating runs (qenv) vary it for the replay on the real code
     return {"NC": str(nc), "Total": str(total), "AbSet": ab, "Kinds": kinds, "PreSet": pre,
-            "MaxCancel": str(maxc), "QEnv": "TRUE" if qenv else "FALSE"}
+            "MaxCancel": str(maxc), "QEnv": "TRUE" if qenv else "FALSE", "ShSet": BOTH if qenv else NO}
 
 
 # exhaustive verification runs (environment acts anywhere): name -> constants
